@@ -105,6 +105,10 @@ def programs(tier):
     for combo in itertools.combinations(range(len(POOL)), 2 if tier == "quick" else 3):
         ms = [{"id": i, "shape": x, "types": {"x": POOL[j]}, "prio": 0, "body": "cn"} for i, j in enumerate(combo)]
         yield "1c:call_next", ms, [(n,) for n in names], None
+    # ... delegating with f.next(...) (looked up through Ovld.next, not through the rewritten call site)
+    for combo in itertools.combinations(range(len(POOL)), 2):
+        ms = [{"id": i, "shape": x, "types": {"x": POOL[j]}, "prio": 0, "body": "next"} for i, j in enumerate(combo)]
+        yield "1n:f.next", ms, [(n,) for n in names], None
     # ... with the argument given by name in the call_next (the run-time helper must use the same lookup as the entry point)
     for combo in itertools.combinations(range(len(POOL)), 2):
         ms = [{"id": i, "shape": x, "types": {"x": POOL[j]}, "prio": 0, "body": "cnk"} for i, j in enumerate(combo)]
@@ -177,7 +181,7 @@ def check_program(space, mspecs, calls, acc, only=None):
         rec = call[0].startswith("(")
         inner = (args[0][0],) if rec else args
         try:
-            if any(m.get("body") in ("cn", "cnk") for m in mspecs):
+            if any(m.get("body") in ("cn", "cnk", "next") for m in mspecs):
                 rkind, rtrace = ref.run(inner, kwargs)
             else:
                 rkind, rm = ref.decide(inner, kwargs)
@@ -245,7 +249,7 @@ def main(tier):
              "type[class with a custom metaclass], type[list[ABC]], a metaclass itself}; passed classes include ABCs, a virtual subclass, classes with a custom "
              "metaclass, an Enum, a runtime protocol, the metaclass itself; all method "
              "sets of <= 3 over one position, pairs over two positions (type[...] first or second, ordinary class in the other), "
-             "a keyword-only type[...] parameter, a second parameter literally named 'type', call_next chains (arguments passed on positionally / by name) and recurse into tuple elements; passed objects: classes, parametrised generics, nested "
+             "a keyword-only type[...] parameter, a second parameter literally named 'type', call_next chains (arguments passed on positionally / by name) and f.next chains and recurse into tuple elements; passed objects: classes, parametrised generics, nested "
              "parametrisations, typing.List, typing.Any, plain instances; oracle R1-R3 with ref_subtype; abstains (monitor only) when "
              "two applicable type[...] annotations have unrelated generic origins; non-trivial = >= 2 applicable methods",
         assumptions=["ref_subtype of vt/annot.py: subclass for classes; same-or-subclass origin with argument-wise subtyping for generics"],
